@@ -171,7 +171,9 @@ def signature(name, f, lines):
         req = {x["r"]: x["a"] for x in info.get("req", [])}
         # one primary kind (a single defect shows up in many combinations): a requested route absent from the
         # table > a route the peer still holds although it is not requested > wrong attributes
-        if any(a == "?aspath" for a in tbl.values()):
+        if any(a == "?malformed" for a in tbl.values()):
+            kind = "malformed"   # an announced route came in an UPDATE whose attribute block is not the intended one
+        elif any(a == "?aspath" for a in tbl.values()):
             kind = "aspath"      # an announced route carries an AS_PATH of the wrong width / content
         elif any(r not in tbl for r in req):
             kind = "missing"
@@ -184,6 +186,18 @@ def signature(name, f, lines):
         return "%s|kind=%s|conn=%s" % (name, kind, "first" if info.get("first") else "later")
     if name == "C16.SessionAsPathWidth":
         return "%s|cap65=%s|ibgp=%s" % (name, str(bool(info.get("cap65"))).lower(), str(bool(meta.get("ibgp"))).lower())
+    if name in ("C17.StreamWellFormed", "C16.SessionUpdateWellFormed", "C16.SessionFraming"):
+        t = info.get("t")
+        if t == "upd":
+            nh = info.get("nexthop") or []
+            what = "codes" if info.get("codes") in ([-2], None) else ("nexthop-len=%d" % len(nh) if len(nh) != 4 else "attrs")
+            if info.get("codes") == [-2]:
+                what = "attr-block"
+        else:
+            what = {"bad": "undecodable-update", "badframe": "no-header-at-boundary"}.get(t, str(t))
+        return "%s|%s" % (name, what)
+    if name == "C17.ConvergesEventually":
+        return "%s|sender-loop-ended-before-close" % name
     if name in ("C17.NoSpuriousReset", "C16.SessionSpuriousReset"):
         return "%s|pipelined=%s" % (name, str(bool(info.get("pipe"))).lower())
     return "%s|at=%s" % (name, info.get("pt"))
@@ -400,6 +414,13 @@ def run(chk):
         "attempts accepted after Close returned, on anything received on a connection whose OPEN the peer answered only after "
         "Close returned (slow handshake: it was sent in reaction to that answer), and on closed=TRUE read under s.mu at the "
         "hook's write/install points; a Close (or Set) that is still blocked on s.mu while the handshake is pending is not judged",
+        "ConvergesEventually: the hook's run.exit logged before close.call (the sender loop returns only on a closed session, and "
+        "closed is only set by Close, which starts after close.call is logged) - a run that merely fails to settle within the "
+        "harness limit stays inconclusive; StreamWellFormed: every UPDATE the peer reads decodes, its attribute block is ORIGIN, "
+        "AS_PATH, NEXT_HOP = the address the peer sees the session coming from, LOCAL_PREF iff iBGP, optionally COMMUNITIES, and "
+        "a header stands at every message boundary; half of the sessions are created with SessionParameters.SourceAddress = "
+        "net.ParseIP(\"127.0.0.1\"); 35 % of the stress runs pace the sender after each UPDATE (slow socket); 1 run in 50 (with "
+        "the hook) runs keepalives every second over a connection whose Write calls are delayed individually",
         "NoSpuriousReset: an end of stream the peer sees is explained only by its own drop (no eof line is logged then), a wrong "
         "ASN it presented, or a Close call that has begun; the peer's OPEN varies per connection (capability 65, MP "
         "capabilities, hold time 0/3/30 s) and in 30 % of the connections OPEN, KEEPALIVE, a 4096-octet UPDATE and a KEEPALIVE "
